@@ -20,7 +20,7 @@ from . import structural as S
 ID = "C03"
 LEVEL = "exploration"
 BATCH = 1
-TIMEOUT = 600
+TIMEOUT = 3000
 REQUIRED_OBS = ["csr_validated", "entries_cross_compared", "pattern_files_checked", "backend_dense", "backend_sparse",
                 "backend_cusparse", "backend_odeint", "tag_empty_network"]
 RULE = ("C01 networks plus the empty network, networks of isolated species only, with/without the thermal equation, all "
@@ -56,6 +56,11 @@ def gen_cases(tier):
         yv["__TGAS__"] = 2e4
         c["ys"] = [yv]
         cases.append(c)
+    r = random.Random(rng.getrandbits(64))
+    cases.append(c01.bundled_case("minimal", r))
+    cases.append(c01.bundled_case("primordial", r))
+    if tier == "thorough":
+        cases.append(c01.bundled_case("deuterium", r, backends=["dense", "sparse"]))
     return cases
 
 
@@ -67,7 +72,7 @@ def same(a, b):
 
 def run_case(case, ctx):
     obs, viol = Counter(), []
-    backends = ["dense", "sparse", "cusparse", "odeint"]
+    backends = case.get("backends") or ["dense", "sparse", "cusparse", "odeint"]
     out = S.run_backends(case, ctx, backends, {"pass", "pattern"})
     usable = S.preamble(out, backends, viol, obs)
     mats = {}      # backend -> list over points of dict (i,j)->value (system 0)
@@ -148,6 +153,8 @@ def run_case(case, ctx):
     tags = c01.tags_of(case) if case.get("special") != "empty" else {"empty_network"}
     if case.get("special"):
         tags.add(case["special"] if case["special"] != "empty" else "empty_network")
+    if case.get("bundled"):
+        tags.add("bundled_" + case["bundled"])
     for t in tags:
         obs["tag_" + t] += 1
     pat = tuple(sorted(stored.get("sparse", ())))
